@@ -99,7 +99,14 @@ func VerifyFuncMode(prog *Prog, fc *FuncContract, concretize int) (res *FuncResu
 	res.VC, res.Final, res.Params, res.Results = vc, vc.final, vc.topParams, vc.topResults
 	res.Used = sortedKeys(vc.used)
 	res.Unmod = sortedKeys(vc.unmod)
-	res.Notes = vc.notes
+	res.Notes = append(vc.notes, vc.autoInv...)
+	for _, tg := range vc.extIfaceTags {
+		for k, id := range vc.typeTags {
+			if strings.Contains(k, repoModule) {
+				vc.addGlobalFact(Not(Eq(tg, IntC(int64(id)))))
+			}
+		}
+	}
 	res.GFacts = append(vc.gfacts, strLitAxioms()...)
 	res.Assumes = vc.assumes
 	res.PreSat = vc.preSat
